@@ -310,8 +310,21 @@ impl Property for C07 {
         let known_output = if output_known && a.muts.is_empty() && native_lzma { Some(true_len) } else { None };
         Case { entry, input, kind, known_output }
     }
+    fn fixed_cases(&self, tier: Tier) -> Vec<Case> {
+        // the long / many-chunk LZMA2 streams of C02's fixed batch, as robustness inputs
+        let mut v = Vec::new();
+        for c in super::c02::C02.fixed_cases(tier) {
+            if let Ok(enc) = crate::refmodel::lzma2::write_lzma2(&c.chunks, false) {
+                v.push(Case { entry: Entry::Lzma2, input: enc.bytes.clone(), kind: "lzma2".into(), known_output: None });
+                v.push(Case { entry: Entry::RawLzma2 { again: true }, input: enc.bytes.clone(), kind: "lzma2".into(), known_output: None });
+                let xz = super::c02::xz_wrap(&enc.bytes, &enc.output, 1);
+                v.push(Case { entry: Entry::Xz, input: xz, kind: "xz".into(), known_output: None });
+            }
+        }
+        v
+    }
     fn rule(&self) -> String {
-        "proptest generates an input {valid LZMA / LZMA2 / XZ stream from the grammar generators; byte-level structured mutations of it (bit flips, byte sets, 4/8-byte field extremes 0 / 0xFF.. / 2^31 / 2^32-1, truncation, duplication, deletion, appended bytes); grammar-level near-valid XZ files with one sealed field set to an extreme (sizes up to 2^63-1, header size byte 0x40/0x80/0xC0/0xFF, record count 2^62, backward size 2^32-1 ...); uniformly random strings} and an entry point {lzma_decompress_with_options with every option shape and memlimit; lzma2_decompress; xz_decompress; Stream with arbitrary write/flush/get_output scripts, allow_incomplete on/off; raw::LzmaDecoder with lc<=8, lp<=4, pb<=4, dict_size in {0,1,2,7,300,4096,65536,2^31-1,2^31,2^32-1}, any unpacked size, any memlimit, decompress / reset(..) / decompress; raw::Lzma2Decoder incl. reuse; occasionally a decoder of another format}. Oracle: (a) the call returns Ok or Err - a panic (also integer overflow / division by zero in the overflow-checked build) is a violation; (b) it returns (sink capped at 32 MiB, so work is O(input + cap); a case running > 120 s is reported as non-termination); (c) peak growth of live heap during the call (counting allocator, non-storing sink) <= 16 MiB + 64 KiB x input length + 8 x bytes accepted by the sink. Non-trivial = the input passes the header checks of its format (reaches the payload loop); distinct = SipHash of (entry, input). Judged on the overflow-checked and on the release build.".into()
+        "a fixed batch (an LZMA2 stream of 70000 chunks; a 20 MiB single-epoch LZMA2 history, raw and inside .xz) plus: proptest generates an input {valid LZMA / LZMA2 / XZ stream from the grammar generators; byte-level structured mutations of it (bit flips, byte sets, 4/8-byte field extremes 0 / 0xFF.. / 2^31 / 2^32-1, truncation, duplication, deletion, appended bytes); grammar-level near-valid XZ files with one sealed field set to an extreme (sizes up to 2^63-1, header size byte 0x40/0x80/0xC0/0xFF, record count 2^62, backward size 2^32-1 ...); uniformly random strings} and an entry point {lzma_decompress_with_options with every option shape and memlimit; lzma2_decompress; xz_decompress; Stream with arbitrary write/flush/get_output scripts, allow_incomplete on/off; raw::LzmaDecoder with lc<=8, lp<=4, pb<=4, dict_size in {0,1,2,7,300,4096,65536,2^31-1,2^31,2^32-1}, any unpacked size, any memlimit, decompress / reset(..) / decompress; raw::Lzma2Decoder incl. reuse; occasionally a decoder of another format}. Oracle: (a) the call returns Ok or Err - a panic (also integer overflow / division by zero in the overflow-checked build) is a violation; (b) it returns (sink capped at 32 MiB, so work is O(input + cap); a case running > 120 s is reported as non-termination); (c) peak growth of live heap during the call (counting allocator, non-storing sink) <= 16 MiB + 64 KiB x input length + 8 x bytes accepted by the sink. Non-trivial = the input passes the header checks of its format (reaches the payload loop); distinct = SipHash of (entry, input). Judged on the overflow-checked and on the release build.".into()
     }
     fn assumptions(&self) -> Vec<String> {
         vec![
